@@ -69,6 +69,10 @@ enum Cs {
 	Raw(Part, Part, Part),
 	/// a stored tile with one part (0 z, 1 x, 2 y) spelled differently
 	Respell(u16, u8, u8),
+	/// a stored tile moved out of its level by a whole number of level widths or of 256-tile
+	/// blocks (which 0 = x, 1 = y, 2 = both; the coordinate that arithmetic modulo the level or
+	/// modulo the block grid would fold back onto the stored tile)
+	Alias(u16, u8, u8),
 }
 
 #[derive(Clone, Debug, Serialize, Deserialize, PartialEq, Eq)]
@@ -150,6 +154,7 @@ fn cs() -> impl Strategy<Value = Cs> {
 			Cs::Raw(if a { Part::Empty } else { z }, if b { Part::Empty } else { x }, if c { Part::Empty } else { y })
 		}),
 		4 => (any::<u16>(), 0u8..3, 0u8..8).prop_map(|(s, w, k)| Cs::Respell(s, w, k)),
+		3 => (any::<u16>(), 0u8..3, 0u8..5).prop_map(|(s, w, k)| Cs::Alias(s, w, k)),
 	]
 }
 
@@ -313,6 +318,21 @@ fn expand(b: &Built, cs: &Cs) -> [Part; 3] {
 			};
 			let x = if which % 3 != 1 { far } else { c.x as u64 };
 			let y = if which % 3 != 0 { far } else { c.y as u64 };
+			[Part::N(c.z as u64), Part::N(x), Part::N(y)]
+		}
+		Cs::Alias(s, which, kind) => {
+			let c = stored(*s);
+			let level = Coord::size(c.z);
+			let step = match kind % 5 {
+				0 => level,
+				1 => level * 256,
+				2 => level * 256 * 3,
+				3 => level * 2,
+				_ => 256 * level.max(256),
+			};
+			let far = |v: u32| (v as u64 + step).min(u32::MAX as u64 - 255 + (v as u64 & 255));
+			let x = if which % 3 != 1 { far(c.x) } else { c.x as u64 };
+			let y = if which % 3 != 0 { far(c.y) } else { c.y as u64 };
 			[Part::N(c.z as u64), Part::N(x), Part::N(y)]
 		}
 		Cs::AnyZ(z, x, y) => {
